@@ -999,6 +999,61 @@ fn sweep_ctor_params(sw: &mut Sweep) {
     }
 }
 
+// --------------------------------------------------------------------------
+// GF(2) equations and systems
+
+/// Safe methods of `Modulo2Equation` / `Modulo2System` on equations whose variables are
+/// sorted (the only documented precondition of `from_parts`), including pairs without a
+/// common variable, empty equations, variables beyond the declared number, and
+/// solutions of the wrong length.
+fn sweep_mod2(sw: &mut Sweep) {
+    use sux::utils::mod2_sys::{Modulo2Equation, Modulo2System};
+    type Eq = Modulo2Equation<usize>;
+    let shapes: &[(&str, &[u32], &[u32])] = &[
+        ("disjoint", &[0, 2], &[1, 3]),
+        ("identical", &[1, 4, 9], &[1, 4, 9]),
+        ("empty+nonempty", &[], &[0, 5, 6]),
+        ("nonempty+empty", &[0, 5, 6], &[]),
+        ("empty+empty", &[], &[]),
+        ("interleaved", &[0, 2, 4, 6, 8], &[1, 3, 5, 7, 9]),
+        ("prefix", &[0, 1], &[0, 1, 2, 3, 4, 5]),
+        ("one-common", &[3, 7], &[7, 11, 12]),
+        ("long+short", &[0, 1, 2, 3, 4, 5, 6, 7, 8, 9, 10, 11, 12, 13, 14, 15, 16], &[16]),
+        ("duplicates-inside", &[2, 2, 5], &[2, 5, 5]),
+        ("huge-variables", &[u32::MAX - 1, u32::MAX], &[0, u32::MAX]),
+    ];
+    for &(name, a, b) in shapes {
+        let make = move |_rng: &mut SmallRng| ((a.to_vec(), b.to_vec()), a.len(), b.len(), 20usize);
+        let methods: &[(&str, &dyn Fn(&mut (Vec<u32>, Vec<u32>), usize, &mut SmallRng))] = &[
+            ("add", &|(a, b), _n, _| {
+                let mut x: Eq = unsafe { Eq::from_parts(a.clone(), 5) };
+                let y: Eq = unsafe { Eq::from_parts(b.clone(), 3) };
+                x.add(&y);
+                x.add(&y);
+                let mut z: Eq = unsafe { Eq::from_parts(b.clone(), 1) };
+                z.add(&x);
+                black_box(&z);
+            }),
+            ("system_push_check_solve", &|(a, b), n, _| {
+                // the declared number of variables is the class argument: often too small for the equations
+                let nv = n.min(40);
+                let mut s = Modulo2System::<usize>::new(nv);
+                s.push(unsafe { Eq::from_parts(a.clone(), 5) });
+                s.push(unsafe { Eq::from_parts(b.clone(), 3) });
+                let _ = catch(|| black_box(s.check(&vec![0usize; nv])));
+                let _ = catch(|| black_box(s.check(&vec![1usize; nv + 1])));
+                let _ = catch(|| black_box(s.check(&[])));
+                let mut s2 = Modulo2System::<usize>::new(nv);
+                s2.push(unsafe { Eq::from_parts(a.clone(), 5) });
+                s2.push(unsafe { Eq::from_parts(b.clone(), 3) });
+                let _ = catch(|| black_box(s.gaussian_elimination().ok()));
+                let _ = catch(|| black_box(s2.lazy_gaussian_elimination().ok()));
+            }),
+        ];
+        sw.run("Modulo2System<usize>", name, &make, methods, &["0", "1", "len", "cnt", "u", "2^16"], false);
+    }
+}
+
 fn main() {
     let mut ctx = Ctx::from_args("C12");
     ctx.set_hang_limit(120);
@@ -1020,6 +1075,7 @@ fn main() {
     sweep_ctor_params(&mut sw);
     sweep_ef(&mut sw);
     sweep_rcl(&mut sw);
+    sweep_mod2(&mut sw);
     if !small {
         sweep_vfunc(&mut sw);
     }
